@@ -356,6 +356,17 @@ func init() {
 			in.Obligation(in.constStr(args[0], "assert label"), args[1].(*Term), "assert")
 			return nil
 		},
+		// VSkip(reason): the harness is a lemma about HOW the code does something (e.g. "through sort.SliceStable");
+		// on a tree that does it differently the lemma is moot. The path ends, the harness is reported as
+		// skipped with the reason, and its cover goals are not demanded.
+		"VSkip": func(in *Interp, fn *ssa.Function, args []Value) Value {
+			reason := in.constStr(args[0], "skip reason")
+			e := in.E
+			e.mu.Lock()
+			e.res(in.harness).Skipped = reason
+			e.mu.Unlock()
+			panic(&pathEnd{"skipped: " + reason})
+		},
 		"VCover": func(in *Interp, fn *ssa.Function, args []Value) Value {
 			in.cover(in.constStr(args[0], "cover label"))
 			return nil
@@ -761,20 +772,46 @@ func registerStubs(e *Engine) {
 	S["bytes.Equal"] = func(in *Interp, fn *ssa.Function, args []Value) (Value, bool) {
 		return ret(in.tb.Eq(in.bytesToStr(args[0]), in.bytesToStr(args[1])))
 	}
+	// decimal rendering is the same model as fmt's %d, so that code may switch between the two
 	S["strconv.Itoa"] = func(in *Interp, fn *ssa.Function, args []Value) (Value, bool) {
-		a := args[0].(*Term)
-		if a.IsConst() {
-			return ret(in.tb.Str(strconv.FormatInt(int64(a.U), 10)))
+		return ret(in.fmtDecimal(args[0].(*Term), true))
+	}
+	S["strconv.FormatInt"] = func(in *Interp, fn *ssa.Function, args []Value) (Value, bool) {
+		a, b := args[0].(*Term), args[1].(*Term)
+		if a.IsConst() && b.IsConst() {
+			return ret(in.tb.Str(strconv.FormatInt(int64(a.U), int(b.U))))
 		}
-		return ret(in.tb.UF("fmt.int", SortStr, a))
+		if b.IsConst() && b.U == 10 {
+			return ret(in.fmtDecimal(a, true))
+		}
+		return ret(in.tb.UF("fmt.intbase", SortStr, a, b))
 	}
 	S["strconv.FormatUint"] = func(in *Interp, fn *ssa.Function, args []Value) (Value, bool) {
 		a, b := args[0].(*Term), args[1].(*Term)
 		if a.IsConst() && b.IsConst() {
 			return ret(in.tb.Str(strconv.FormatUint(a.U, int(b.U))))
 		}
-		return ret(in.tb.UF("fmt.int", SortStr, a))
+		if b.IsConst() && b.U == 10 {
+			return ret(in.fmtDecimal(a, false))
+		}
+		return ret(in.tb.UF("fmt.intbase", SortStr, a, b))
 	}
+}
+
+// fmtDecimal: decimal text of an integer term, shared by fmt's %d and strconv.
+func (in *Interp) fmtDecimal(t *Term, signed bool) *Term {
+	tb := in.tb
+	if t.IsConst() {
+		if signed {
+			return tb.Str(strconv.FormatInt(sext(t.U, t.Sort.W), 10))
+		}
+		return tb.Str(strconv.FormatUint(t.U, 10))
+	}
+	if t.Op == "int2bv" {
+		// a non-negative mathematical integer: canonical decimal rendering
+		return tb.StrOp("str.from_int", SortStr, t.Args[0])
+	}
+	return tb.UF("fmt.int", SortStr, tb.Resize(t, 64, false))
 }
 
 func (in *Interp) idxToBV(i *Term) *Term {
